@@ -595,9 +595,15 @@ Section Conv.
   Definition expand (S : list N) : list N := nodup N.eq_dec (S ++ flat_map cls_refs S).
   Fixpoint iter_expand (n : nat) (S : list N) : list N :=
     match n with O => S | S n' => iter_expand n' (expand S) end.
+  (* every class id that occurs anywhere: the ids of the table, the ids its fields mention, the ids of T *)
+  Definition universe (T : ty) : list N :=
+    nodup N.eq_dec (ty_classes T ++ flat_map (fun k => flat_map (fun f => ty_classes (f_ty f)) (c_fields k)) ct).
   (* the set _register_*_hooks_recursively / _register_hooks_for_nested_types walk from T
-     (they carry a visited set; the registered set is the reachability closure) *)
-  Definition reach (T : ty) : list N := iter_expand (length ct) (nodup N.eq_dec (ty_classes T)).
+     (they carry a visited set; the registered set is the reachability closure: proved in
+     Proofs/Converter.v, reach_closed / reach_least).  The walk resolves the hints with
+     get_type_hints(cls, include_extras=True) and hands them to cattrs, so quoted names inside
+     generics resolve (F03c) and Annotated[...] metadata of union fields survives (C14's subject). *)
+  Definition reach (T : ty) : list N := iter_expand (length (universe T)) (nodup N.eq_dec (ty_classes T)).
 
   Record state := { sreg_of : list N; ureg_of : list N }.
   Definition st0 : state := {| sreg_of := []; ureg_of := [] |}.
